@@ -374,6 +374,40 @@ def scenario_small(rng, optset, tier):
     return Case(optset, rng.choice([1, 2, 4, 16]), ops, "small")
 
 
+def scenario_int(rng):
+    """option set with an integral Filtration_value (the library has separate code paths for value types without NaN):
+    integer values only, no infinity, no extended filtration"""
+    n = rng.choice([2, 3, 4, 5, 6])
+    verts = vertex_labels(rng, n, False, False)
+    pool = [Fraction(x) for x in rng.sample(range(-6, 12), 5)]
+    ops = build_ops(rng, verts, rng.choice([1, 2, 3]), rng.randrange(1, 6), pool, False)
+    ref = Ref(-2 ** 31)
+    for l in ops:
+        ref.op(l.split())
+
+    def emit(l):
+        ops.append(l)
+        ref.op(l.split())
+    emit("range")
+    for ph in rng.sample(["sets", "mfnd", "prune", "sets2", "mfnd2", "prune2"], rng.randrange(2, 6)):
+        if ph.startswith("sets") and ref.K:
+            keys = sorted(ref.K)
+            for _ in range(rng.randrange(1, 2 + len(keys) // 2)):
+                emit("set %s %s" % (sstr(rng.choice(keys)), vstr(rng.choice(pool) + rng.choice([0, 1, -1, 2]))))
+            emit("range")
+            if ref.closed() and rng.random() < 0.8:
+                emit("mfnd")
+                emit("range")
+        elif ph.startswith("mfnd"):
+            if ref.closed():
+                emit("mfnd")
+                emit("range")
+        else:
+            emit("prune %s" % vstr(rng.choice(pool)))
+            emit("range")
+    return Case("intv", rng.choice([1, 2, 4]), ops, "small-integral-values")
+
+
 def scenario_history(rng, optset, nhist):
     """the same filtered complex through several shuffled insertion histories"""
     contig = optset == "fast"
@@ -458,6 +492,8 @@ def generate(ctx):
     for o in OPTSETS:
         for _ in range(nsmall):
             cases.append(scenario_small(rng, o, tier))
+    for _ in range(400 if thorough else 60):
+        cases.append(scenario_int(rng))
     nh = 25 if thorough else 4
     hist_groups = []
     for o in OPTSETS:
